@@ -585,22 +585,35 @@ func runC15(c *Ctx, r *Rec) {
 				case "Make", "MakeFromArray", "MakeFromSequence":
 					badC = "a result set is created with " + mname + " (the default collator) instead of the operands' collator: under a custom collator the result orders and de-duplicates differently"
 				case "MakeWithCollator":
-					okArg := false
-					if crx, cname, _, ok := methodCall(ast.Unparen(call.Args[0])); ok && cname == "GetCollator" {
+					okArg, unknownArg := false, false
+					src := resolveInit(info, fd, call.Args[0])
+					if crx, cname, _, ok := methodCall(src); ok && cname == "GetCollator" {
 						for _, p := range params {
 							if isObj(info, crx, p) {
 								okArg = true
 							}
 						}
+						// the collator of a set computed here from the operands (a sibling's result) is the operands' collator too
+						if !okArg {
+							if o := identObj(info, crx); o != nil && ifaceMethodNames(o.Type())["GetCollator"] {
+								okArg = true
+							}
+						}
+					} else if _, cname, _, ok := methodCall(src); !ok || cname != "Make" {
+						unknownArg = true // neither an operand's collator nor a freshly made default one
 					}
-					if !okArg {
+					if unknownArg && !okArg {
+						if badC == "" {
+							badC = "skip: the collator given to MakeWithCollator is not recognised"
+						}
+					} else if !okArg {
 						badC = "MakeWithCollator is not given an operand's GetCollator()"
 					}
 				}
 			}
 			return true
 		})
-		r.check(badC == "", "D3-collator", construct, c.pos(fd.Pos()), "every set built here uses an operand's collator (or comes from a sibling that does)", badC)
+		r.verdict("D3-collator", construct, c.pos(fd.Pos()), "every set built here uses an operand's collator (or comes from a sibling that does)", badC)
 	}
 	// the result's ordered storage is only changed through the set's own searched insert/remove
 	if set, _ := c.impl("collection", "SetLike"); set != nil {
@@ -625,6 +638,14 @@ func runC15(c *Ctx, r *Rec) {
 			_, _, n := checkStorageSites(c, r, "D1-ordered-storage", info, fds, storage, searchFn)
 			r.count("class functions reaching into set storage", n)
 		}
+	}
+	{
+		var fds []*ast.FuncDecl
+		cm := c.methodsOf(cls)
+		for _, name := range sortedKeys(cm) {
+			fds = append(fds, cm[name])
+		}
+		checkRemoveWhileIndexing(c, r, "D1-every-element-examined", info, fds)
 	}
 	r.floor("D1-truth-table", 4)
 	r.floor("D2-pure", 4)
